@@ -1,6 +1,7 @@
 """C10 — saved curation state survives any save/reload history (DESIGN.md §5 C10)."""
 import csv
 import io
+from fractions import Fraction
 import numpy as np
 from . import common as C
 from . import dataset as D
@@ -12,16 +13,20 @@ BATCH = 60
 BUDGET_S = {'quick': 90, 'thorough': 1500}
 RULE = ('histories over {save_spike_clusters(random reassignment), save_metadata(field, mapping with ints / '
         'floats / non-numeric strings incl. tabs, commas, quotes / None), write foreign TSV/CSV (valid / empty / '
-        'ragged / unterminated quote; field names disjoint from saved ones), save_spikes_subset_waveforms, close, '
-        'reload} on generated datasets with raw data; after every reload the loaded model is compared with the '
-        'Lean disk model and with the abstract last-write-wins state; after close only reload follows. '
+        'ragged / unterminated quote / repeated cluster_id column; also files carrying a field that save_metadata '
+        'writes, as .csv and as .tsv), save_spikes_subset_waveforms(unit factor 1, 2, 0.5), close, reload} on generated '
+        'datasets with raw data; after every reload the loaded model is compared with the Lean disk model (metadata in '
+        'the visiting order of the real directory, spike templates / times, subset store ids, channel rows and '
+        'waveforms) and with the abstract last-write-wins state; after close only reload follows. '
         'non-trivial = history with >= 2 saves of metadata or clusters and >= 1 reload')
 ASSUMPTIONS = ['csv parsing and number parsing/formatting are transport: foreign file texts are parsed with the csv module '
                'and cells classified with int()/float() by the harness before they reach the Lean model',
                'the metadata field name "info" is outside the domain (cluster_info.tsv is deliberately ignored on load)',
-               'field names of different files are disjoint, except that ONE legacy cluster_*.csv may name a field that save_metadata also '
-               'writes (csv files are visited before tsv files; the order among several csv or several tsv files is the '
-               'directory order, unspecified, so a history never has two csv files naming the same field)']
+               'the order in which glob lists the directory is observed at each reload and given to the Lean loader model '
+               '(the code does not determine it); the last saved mapping of a field is claimed when the saved file is the '
+               'last visited file saying anything about the field (Lean: view_field_eq_last / metadata_last_saved_among_files)',
+               'the spike selection of save_spikes_subset_waveforms (random, C17) and get_template().channel_ids (C05) are '
+               'observed on the real model and given to the Lean model; stores of fewer than 2 spikes are not queried (see report)']
 FIELDS = ['group', 'quality', 'n_x', 'in']       # 'in': cluster_in.tsv is a prefix of the ignored cluster_info.tsv
 TEXTS = ['good', 'mua', 'a\tb', 'x,y', 'say "hi"', 'noise ']
 
@@ -64,11 +69,15 @@ def parse_foreign(text, ext):
 
 
 def impl(case):
-    from phylib.io.model import load_model, extract_waveforms
-    views = []
+    from phylib.io.model import load_model
+    views, sels = [], []
     with C.scratch_dir() as d:
         params = D.write_dataset(d, case['spec'])
         m = load_model(params)
+        used = sorted(int(t) for t in np.unique(m.spike_templates))
+        init = dict(orders={str(t): [int(c) for c in m.get_template(t).channel_ids] for t in used},
+                    closest=int(m.n_closest_channels), n_templates=int(m.n_templates), nsw=int(m.n_samples_waveforms),
+                    chunks=[[int(a), int(b)] for a, b in m.traces.iter_chunks()])
         closed = False
         for o in case['ops']:
             k = o['k']
@@ -80,7 +89,10 @@ def impl(case):
                 (d / (o['stem'] + '.' + o['ext'])).write_text(o['text'])
             elif k == 'save_subset':
                 np.random.seed(o.get('rs', 0))
-                m.save_spikes_subset_waveforms(max_n_spikes_per_template=o['nst'], max_n_channels=case['spec']['n_channels'])
+                m.save_spikes_subset_waveforms(max_n_spikes_per_template=o['nst'], max_n_channels=o['max_n'],
+                                               sample2unit=case.get('factor', 1.))
+                # the selection (random): read back from the file the call wrote
+                sels.append([int(x) for x in np.load(d / '_phy_spikes_subset.spikes.npy').ravel()])
             elif k == 'close':
                 m.close(); closed = True
             elif k == 'reload':
@@ -91,47 +103,70 @@ def impl(case):
                 v = dict(clusters=[int(x) for x in m.spike_clusters],
                          metadata={f: {repr(kk): [type(vv).__name__, vv] for kk, vv in dd.items()} for f, dd in m.metadata.items()},
                          templates=[int(x) for x in m.spike_templates], samples=[int(x) for x in m.spike_samples],
-                         files=sorted(p.name for p in d.iterdir()))
+                         files=sorted(p.name for p in d.iterdir()),
+                         # the order in which the loader's two globs list this directory
+                         order=[[p.stem, p.suffix == '.tsv'] for p in list(d.glob('*.csv')) + list(d.glob('*.tsv'))])
                 sw = m.spike_waveforms
                 if sw is not None and np.ndim(sw.spike_ids) > 0 and len(sw.spike_ids) >= 2:
                     ids = np.asarray(sw.spike_ids)
-                    ch = np.arange(m.n_channels)
-                    got = m.get_waveforms(ids, ch)
-                    raw = extract_waveforms(m.traces, m.spike_samples[ids], ch, n_samples_waveforms=m.n_samples_waveforms)
-                    stored = np.asarray(sw.spike_channels)
-                    okw = True
-                    for i in range(len(ids)):
-                        for j, c in enumerate(ch):
-                            if c in stored[i] and not np.array_equal(got[i, :, j], raw[i, :, j]):
-                                okw = False
-                    v['store_ok'] = bool(okw)
-                    v['store_n'] = int(len(ids))
-                    nck = stored.shape[1]
-                    rows_ok = True
-                    for i, sid in enumerate(ids):
-                        want = [int(c) for c in m.get_template(int(m.spike_templates[sid])).channel_ids[:nck]]
-                        want += [-1] * (nck - len(want))
-                        if [int(c) for c in stored[i]] != want:
-                            rows_ok = False
-                    v['store_rows_ok'] = bool(rows_ok)
+                    query = ids[::-1] if len(views) % 2 else ids
+                    ch = list(range(m.n_channels))
+                    got = m.get_waveforms(query, ch)
+                    v['store'] = dict(ids=[int(x) for x in ids],
+                                      channels=np.asarray(sw.spike_channels).astype(np.int64).tolist(),
+                                      query=[int(x) for x in query], chq=ch,
+                                      wf=np.asarray(got, dtype=np.float64).tolist(), dtype=str(got.dtype))
                 views.append(v)
         if not closed:
             m.close()
-    return views
+    return dict(views=views, sels=sels, init=init)
+
+
+def _frac(x):
+    f = Fraction(x)
+    return f.numerator if f.denominator == 1 else [f.numerator, f.denominator]
 
 
 def model_query(case, impl_res):
+    spec = case['spec']
+    ok = impl_res.get('ok') or {}
+    init = ok.get('init') or dict(orders={}, closest=12, n_templates=len(spec['templates']),
+                                  nsw=len(spec['templates'][0]), chunks=[])
+    sels = list(ok.get('sels') or [])
+    views = list(ok.get('views') or [])
     ops = []
+    n_sub = n_rel = 0
     for o in case['ops']:
         k = o['k']
         if k == 'save_meta':
             ops.append(dict(k=k, field=o['field'], m=[[int(i), None if v is None else cell_of(v)] for i, v in o['m']]))
         elif k == 'write_file':
             ops.append(dict(k=k, stem=o['stem'], tsv=(o['ext'] == 'tsv'), file=parse_foreign(o['text'], o['ext'])))
+        elif k == 'save_subset':
+            ops.append(dict(k=k, sel=sels[n_sub] if n_sub < len(sels) else [], max_n=o['max_n']))
+            n_sub += 1
+        elif k == 'reload':
+            q = dict(k=k)
+            if n_rel < len(views):
+                q['order'] = views[n_rel]['order']
+                if views[n_rel].get('store'):
+                    q['query'] = views[n_rel]['store']['query']
+                    q['chq'] = views[n_rel]['store']['chq']
+            n_rel += 1
+            ops.append(q)
         else:
             ops.append({kk: vv for kk, vv in o.items() if kk in ('k', 'sc')})
-    sc0 = case['spec'].get('spike_clusters') or case['spec']['spike_templates']
-    return dict(p=PID, op='history', clusters0=sc0, ops=ops)
+    sc0 = spec.get('spike_clusters') or spec['spike_templates']
+    raw = np.array([row for part in spec['raw'] for row in part])[:, spec['channel_map']]
+    orders = [init['orders'].get(str(t), []) for t in range(init['n_templates'])]
+    return dict(p=PID, op='history', clusters0=sc0, ops=ops, factor=_frac(case.get('factor', 1.)),
+                spike_templates=spec['spike_templates'], spike_samples=spec['spike_samples'], raw=raw.tolist(),
+                chunks=init['chunks'], orders=orders, nsw=init['nsw'], closest=init['closest'])
+
+
+def _cells(arr3):
+    return [[[float(Fraction(c[0], c[1])) if isinstance(c, list) else float(c) for c in row] for row in w]
+            for w in arr3]
 
 
 def _val(c):
@@ -157,7 +192,7 @@ def judge(case, impl_res, ans):
     if 'raised' in impl_res:
         return 'SPEC: real code raised %s (%s) at %s during an in-domain history (loading must never fail)' % (
             impl_res['raised'], impl_res['msg'], impl_res['where'])
-    views = impl_res['ok']
+    views = impl_res['ok']['views']
     mv = ans['ok']['views']
     if len(views) != len(mv):
         return 'MACHINERY: number of reloads'
@@ -168,18 +203,46 @@ def judge(case, impl_res, ans):
             return 'SPEC: reload %d shows spike clusters %s, last saved %s' % (i, v['clusters'], m['abs_clusters'])
         real_meta = {f: {k: _real(tv) for k, tv in dd.items()} for f, dd in v['metadata'].items()}
         for f, vals in m['abs_fields']:
+            if f not in m['claimed']:
+                # an emptied field, or another file visited later by THIS directory order carries the field
+                # (the code does not determine which wins): only the correspondence below applies
+                continue
             exp = {repr(int(cid)): _val(c) for cid, c in vals}
-            if not exp:
-                continue      # an emptied field: nothing is claimed (a legacy CSV may show through)
             if real_meta.get(f) != exp:
                 return 'SPEC: reload %d: metadata field %r is %s, last saved mapping %s' % (i, f, real_meta.get(f), exp)
+        if m['templates'] != spec['spike_templates'] or m['samples'] != spec['spike_samples']:
+            return 'MACHINERY: the disk model changed spike templates / times (contradicts templates_times_unchanged)'
         if v['templates'] != spec['spike_templates'] or v['samples'] != spec['spike_samples']:
             return 'SPEC: reload %d: spike templates / times changed' % i
-        if v.get('store_ok') is False:
-            return 'SPEC: reload %d: subset-store waveforms differ from the raw data' % i
-        if v.get('store_rows_ok') is False:
-            return 'SPEC: reload %d: the subset store does not hold the best channels of each spike\'s template' % i
-        # correspondence with the disk model (foreign files included)
+        st = v.get('store')
+        if st is not None:
+            ms = m['store']
+            if ms is None:
+                return 'CORR: reload %d: the real model has a subset store, the disk model has none' % i
+            sel = st['ids']
+            if m['tile'] and all(a < b for a, b in zip(sel, sel[1:])) and m['wf_spec'] is not None \
+                    and m['wf_spec'] != m['wf']:
+                return 'MACHINERY: Lean store lookup differs from its spec (contradicts subset_eq_raw)'
+            if st['ids'] != ms['ids']:
+                return 'SPEC: reload %d: the subset store holds spikes %s, the last export selected %s' % (i, st['ids'], ms['ids'])
+            if st['channels'] != ms['channels']:
+                return 'SPEC: reload %d: the subset store does not hold the best channels of each spike\'s template (%s, model %s)' % (
+                    i, st['channels'], ms['channels'])
+            got = np.array(st['wf'], dtype=np.float64)
+            if m['wf_spec'] is None:
+                return 'MACHINERY: stored spikes not stored in the disk model'
+            exp = np.array(_cells(m['wf_spec']), dtype=np.float64)
+            if got.shape != exp.shape:
+                return 'SPEC: reload %d: get_waveforms on the stored spikes returned shape %s' % (i, list(got.shape))
+            rows = dict(zip(st['ids'], st['channels']))
+            for a, q in enumerate(st['query']):
+                for b, c in enumerate(st['chq']):
+                    if c in rows[q] and not np.array_equal(got[a, :, b], exp[a, :, b]):
+                        return ('SPEC: reload %d: subset-store waveforms differ from the unit factor times the raw data '
+                                '(spike %d, channel %d)' % (i, q, c))
+            if not np.array_equal(got, np.array(_cells(m['wf']), dtype=np.float64)):
+                return 'CORR: reload %d: get_waveforms differs from the disk model on a channel the store does not hold' % i
+        # correspondence with the disk model (foreign files included), in the visiting order of the real directory
         mm = {f: {repr(_cid(c)): _val(val) for c, val in rows} for f, rows in m['view']['metadata']}
         # "next to metadata found in other TSV/CSV files": a well-formed foreign file contributes its field
         for o in case['ops']:
@@ -193,6 +256,11 @@ def judge(case, impl_res, ans):
             return 'CORR: reload %d: metadata %s differs from the disk model %s' % (i, real_meta, mm)
         if m['subset'] and '_phy_spikes_subset.waveforms.npy' not in v['files'] and spec.get('raw'):
             return 'CORR: subset files missing'
+        if not m['subset'] and '_phy_spikes_subset.waveforms.npy' in v['files']:
+            return 'CORR: subset files present without an export'
+        real_tables = sorted(x for x in v['files'] if x.endswith('.tsv') or x.endswith('.csv'))
+        if real_tables != sorted(m['files']):
+            return 'CORR: reload %d: metadata files in the directory %s, in the disk model %s' % (i, real_tables, sorted(m['files']))
     return None
 
 
@@ -213,6 +281,13 @@ def tally(rep, case, impl_res, ans):
     for o in case['ops']:
         rep.count('op:' + o['k'] + ((':' + o['kind'] + ('(delimiter!=suffix)' if o.get('mismatch') else '')) if o['k'] == 'write_file' else ''))
     rep.count('history_len:%d' % len(case['ops']))
+    rep.count('unit_factor:%s' % case.get('factor', 1.))
+    if 'ok' in impl_res and 'ok' in ans:
+        for v, m in zip(impl_res['ok']['views'], ans['ok']['views']):
+            rep.count('reload:store_%s' % ('queried' if v.get('store') else ('absent' if not m['subset'] else 'not_queried(<2 spikes)')))
+            nf = len([f for f, vals in m['abs_fields'] if vals])
+            rep.count('saved_fields:claimed', len(m['claimed']))
+            rep.count('saved_fields:another_file_visited_later_or_overwritten', nf - len(m['claimed']))
 
 
 def classify(case, impl_res, ans, why):
@@ -273,7 +348,8 @@ def rand_history(rng, spec, L):
                 seen_meta.setdefault(field, []).append(m)
             ops.append(dict(k=k, field=field, m=m))
         elif k == 'write_file':
-            kind = rng.pick(['valid', 'empty', 'ragged', 'quote', 'no_cluster_id', 'cluster_info', 'legacy_csv', 'legacy_csv'])
+            kind = rng.pick(['valid', 'empty', 'ragged', 'quote', 'no_cluster_id', 'cluster_info', 'legacy_csv', 'legacy_csv',
+                             'same_field', 'same_field', 'dup_id'])
             ext = rng.pick(['tsv', 'csv'])
             dl = '\t' if ext == 'tsv' else ','
             ff = rng.pick(foreign_fields)
@@ -291,10 +367,19 @@ def rand_history(rng, spec, L):
                 # an old-style CSV carrying a field that save_metadata also writes: the saved TSV must win
                 ext, dl = 'csv', ','
                 ff = rng.pick(FIELDS)
-                # one legacy file per field in a history: the order in which the loader visits two
-                # legacy CSVs naming the same field is the directory order (unspecified)
-                stem = legacy_stem.setdefault(ff, rng.pick(['cluster_%ss' % ff, 'zz_legacy_' + ff, 'cluster_' + ff]))
+                # several legacy files may name the same field: the loader visits them in the directory order, which
+                # is observed at each reload and given to the Lean loader model
+                stem = rng.pick(['cluster_%ss' % ff, 'zz_legacy_' + ff, 'cluster_' + ff])
                 text = dl.join(['cluster_id', ff]) + '\n' + ''.join('%d%sLEGACY%d\n' % (i, dl, i) for i in rng.sample(range(9), 3))
+            elif kind == 'same_field':
+                # a foreign file (tsv or csv) carrying a field that save_metadata also writes, before or after the save:
+                # which file is shown is decided by the order of the loader's visit (csv before tsv, directory order)
+                ff = rng.pick(FIELDS)
+                stem = rng.pick(['zz_', 'aa_', 'Cluster_']) + ff
+                text = dl.join(['cluster_id', ff]) + '\n' + ''.join('%d%sFOREIGN%d\n' % (i, dl, i) for i in rng.sample(range(9), 3))
+            elif kind == 'dup_id':
+                # a repeated cluster_id column: read_tsv builds a dict per row, the last non-empty cell is the id
+                text = dl.join(['cluster_id', ff, 'cluster_id']) + '\n' + '1%sA%s2\n' % (dl, dl) + '3%sB%s\n' % (dl, dl) + '4%sC\n' % dl
             elif kind == 'no_cluster_id':
                 text = dl.join(['id', ff]) + '\n' + '1%s5\n' % dl
             else:
@@ -302,7 +387,12 @@ def rand_history(rng, spec, L):
                 text = dl.join(['cluster_id', 'group', 'zz']) + '\n' + '1%sxx%s3\n' % (dl, dl)
             ops.append(dict(k=k, stem=stem, ext=ext, text=text, kind=kind, field=ff, mismatch=(kind == 'valid' and rng.random() < .4)))
         elif k == 'save_subset':
-            ops.append(dict(k=k, nst=rng.randrange(1, 3), rs=rng.randrange(1000)))
+            # store width = max(max_n or n_closest, n_closest). A width of ONE column is kept out of the generator: the
+            # reloaded channel table is squeezed to 1-D and get_waveforms raises IndexError (finding reported, not fixed
+            # here); n_closest_channels is 12 unless params.py sets it
+            ncc = (spec.get('params_extra') or {}).get('n_closest_channels', 12)
+            widths = [spec['n_channels'], 14] + ([0, 0, 1, 2] if ncc >= 2 else [])
+            ops.append(dict(k=k, nst=rng.randrange(1, 3), rs=rng.randrange(1000), max_n=rng.pick(widths)))
         elif k == 'close':
             ops.append(dict(k=k)); closed = True
         else:
@@ -334,4 +424,9 @@ def gen(tier, rng):
     q = tier == 'quick'
     for i in range(500 if q else 6000):
         spec = DC.dense_spec(rng, raw=True, feats=False, curated=(i % 2 == 0), ns=rng.randrange(4, 12))
-        yield dict(p=PID, spec=spec, ops=rand_history(rng, spec, rng.randrange(2, 7 if q else 9)))
+        if rng.random() < .5:
+            # a narrow channel neighbourhood (params.py): the subset store then holds only the first 2..3 channels of
+            # each template, so WHICH channels are stored matters
+            spec['params_extra'] = dict(spec.get('params_extra') or {}, n_closest_channels=rng.pick([2, 3]))
+        yield dict(p=PID, spec=spec, ops=rand_history(rng, spec, rng.randrange(2, 7 if q else 9)),
+                   factor=rng.pick([1., 1., 2., 0.5]))
